@@ -524,41 +524,59 @@ theorem C04_at_most_once_udp (name : String) (n0 : NetSt) (hex : (n0.udp? name).
   exact (List.Perm.nodup_iff hp).mpr (by rw [hs]; exact hf)
 
 /-- **All TCP sockets and acceptors, none discarded.** From any well-formed table (unique names, no
-    socket with both a read and a wait-for-read outstanding), after any sequence of labels
-    satisfying the preconditions `HTS.ok` (see SimVerif/HandlerSys.lean): the ids in all slots of
-    all sockets and acceptors, the ids bound into connect timers (refused connects) and the ids of
-    all completions produced are exactly the ids given to initiating calls. Includes accepts
-    into a peer socket that still has operations outstanding (they are aborted), supersession,
-    close, cancel, destruction, packets for closed sockets, the write and retransmission loops. -/
-theorem C04_none_discarded_tcp (tp : TParams) (n0 : NetSt) (hw : TWf n0) (ls : List h4_HLbl)
+    socket with both a read and a wait-for-read outstanding, accept queues holding valid channel
+    ids — `ConnsOk n0`, trivially true of a table without queued connections), after any sequence
+    of labels satisfying the preconditions `HTS.ok` (see SimVerif/HandlerSys.lean): the ids in all
+    slots of all sockets and acceptors, the ids bound into connect timers (refused connects) and
+    the ids of all completions produced are exactly the ids given to initiating calls. Includes
+    accepts into a peer socket that still has operations outstanding (they are aborted),
+    supersession, close, cancel, destruction, packets for closed sockets, the write and
+    retransmission loops.
+
+    That accept queues hold valid channel ids is NOT a side condition on the labels: it is an
+    invariant (third conjunct), preserved by every label (`HL.cok_label`) — a channel id enters a
+    queue only from the `chan` field of a SYN the environment hands in, `internal_connect`
+    allocates ids as `chans.length` before growing the table, and the table never shrinks. The
+    only thing `HTS.ok` asks about channels is that the packet handed to `.incoming` carries no
+    channel or a valid one. -/
+theorem C04_none_discarded_tcp (tp : TParams) (n0 : NetSt) (hw : TWf n0) (hc : ConnsOk n0) (ls : List h4_HLbl)
     (hok : HTS.okRun tp { n := n0, started := allTcpIds n0 } ls) :
     let s := HTS.run tp { n := n0, started := allTcpIds n0 } ls
-    (allTcpIds s.n ++ s.parked ++ s.ids).Perm s.started ∧ TWf s.n :=
-  have h := TInv_run tp ls _ ⟨hw, by simp [HdS.ids]⟩ hok
-  ⟨h.perm, h.wf⟩
+    (allTcpIds s.n ++ s.parked ++ s.ids).Perm s.started ∧ TWf s.n ∧ ConnsOk s.n :=
+  have h := TInv_run tp ls _ ⟨hw, by simp [HdS.ids], hc⟩ hok
+  ⟨h.perm, h.wf, h.conns⟩
+
+/-- **Accept queues hold valid channel ids** in every reachable state: for every acceptor, every
+    queued connection is an index into the channel table (so `check_accept_queue()` never finds
+    a dangling connection and never drops the accept handler it took out of its slot). -/
+theorem C04_accept_queues_valid (tp : TParams) (n0 : NetSt) (hw : TWf n0) (hc : ConnsOk n0) (ls : List h4_HLbl)
+    (hok : HTS.okRun tp { n := n0, started := allTcpIds n0 } ls) (name : String) (s : TcpSock) (a : AccState)
+    (hs : (HTS.run tp { n := n0, started := allTcpIds n0 } ls).n.tcp? name = some s) (ha : s.acc = some a) :
+    ∀ c ∈ a.conns, c < (HTS.run tp { n := n0, started := allTcpIds n0 } ls).n.chans.length :=
+  (C04_none_discarded_tcp tp n0 hw hc ls hok).2.2.ok name s a hs ha
 
 /-- **All TCP sockets and acceptors, at most once.** With pairwise distinct handler ids nothing is
     completed twice; an id in a slot or bound into a connect timer has not been completed. -/
-theorem C04_at_most_once_tcp (tp : TParams) (n0 : NetSt) (hw : TWf n0) (ls : List h4_HLbl)
+theorem C04_at_most_once_tcp (tp : TParams) (n0 : NetSt) (hw : TWf n0) (hc : ConnsOk n0) (ls : List h4_HLbl)
     (hok : HTS.okRun tp { n := n0, started := allTcpIds n0 } ls)
     (hf : (allTcpIds n0 ++ ls.filterMap h4_HLbl.newId?).Nodup) :
     let s := HTS.run tp { n := n0, started := allTcpIds n0 } ls
     (allTcpIds s.n ++ s.parked ++ s.ids).Nodup := by
   intro s
-  have hp := (C04_none_discarded_tcp tp n0 hw ls hok).1
+  have hp := (C04_none_discarded_tcp tp n0 hw hc ls hok).1
   have hs : s.started = allTcpIds n0 ++ ls.filterMap h4_HLbl.newId? := TS_run_started tp ls _
   exact (List.Perm.nodup_iff hp).mpr (by rw [hs]; exact hf)
 
 /-- **Acceptors** are objects of the same table: an accept handler sitting in an acceptor's slot has
     not been completed, and is never completed twice (instance of the theorem above). -/
-theorem C04_at_most_once_acceptor (tp : TParams) (n0 : NetSt) (hw : TWf n0) (ls : List h4_HLbl)
+theorem C04_at_most_once_acceptor (tp : TParams) (n0 : NetSt) (hw : TWf n0) (hc : ConnsOk n0) (ls : List h4_HLbl)
     (hok : HTS.okRun tp { n := n0, started := allTcpIds n0 } ls)
     (hf : (allTcpIds n0 ++ ls.filterMap h4_HLbl.newId?).Nodup) (name : String) (s : TcpSock) (op : AcceptOp)
     (hs : (HTS.run tp { n := n0, started := allTcpIds n0 } ls).n.tcp? name = some s)
     (hop : s.acceptOp = some op) :
     op.h ∉ (HTS.run tp { n := n0, started := allTcpIds n0 } ls).ids
     ∧ (HTS.run tp { n := n0, started := allTcpIds n0 } ls).ids.Nodup := by
-  have hn := C04_at_most_once_tcp tp n0 hw ls hok hf
+  have hn := C04_at_most_once_tcp tp n0 hw hc ls hok hf
   dsimp only at hn
   rw [List.nodup_append] at hn
   refine ⟨fun hmem => ?_, hn.2.1⟩
@@ -681,9 +699,23 @@ example : (HTS.run {} { n := tcp0, started := allTcpIds tcp0 } tcpHist).log.map 
        (false, 12, .ok), (false, 13, .aborted), (false, 14, .aborted), (false, 10, .aborted)] := by decide
 
 example : TWfb tcp0 = true := by decide
+example : ConnsOkb tcp0 = true := by decide
 example : HTS.okRunb {} { n := tcp0, started := allTcpIds tcp0 } tcpHist = true := by decide
-example := C04_at_most_once_tcp {} tcp0 (TWfb_sound (by decide)) tcpHist (HTS.okRunb_sound _ _ _ (by decide)) (by decide)
-example := C04_none_discarded_tcp {} tcp0 (TWfb_sound (by decide)) tcpHist (HTS.okRunb_sound _ _ _ (by decide))
+example := C04_at_most_once_tcp {} tcp0 (TWfb_sound (by decide)) (ConnsOkb_sound (by decide)) tcpHist
+  (HTS.okRunb_sound _ _ _ (by decide)) (by decide)
+example := C04_none_discarded_tcp {} tcp0 (TWfb_sound (by decide)) (ConnsOkb_sound (by decide)) tcpHist
+  (HTS.okRunb_sound _ _ _ (by decide))
+
+/-- the invariant is not vacuous: while the accept `.into 8` is being completed by the SYN the
+    queue held channel 0; a second SYN with no accept outstanding stays queued, and the queue
+    is valid without any assumption on it -/
+def tcpHist2 : List h4_HLbl := [.incoming 5 "a0" syn, .incoming 6 "a0" syn]
+
+example : ((HTS.run {} { n := tcp0, started := allTcpIds tcp0 } tcpHist2).n.tcp? "a0").bind (·.acc.map (·.conns))
+    = some [0, 0] := by decide
+example : HTS.okRunb {} { n := tcp0, started := allTcpIds tcp0 } tcpHist2 = true := by decide
+example := C04_accept_queues_valid {} tcp0 (TWfb_sound (by decide)) (ConnsOkb_sound (by decide)) tcpHist2
+  (HTS.okRunb_sound _ _ _ (by decide)) "a0"
 
 end C04Ex
 
